@@ -53,6 +53,12 @@ Theorem C11_partial : forall c n, gwf c = true -> gguards c = true -> gimpl_run 
 Proof. exact gimpl_refines_spec. Qed.
 Print Assumptions C11_partial.
 
+(* Connectivity(weights, delays, spread): the cascade of _add_matrix_delay (order max(1, round((d/s)^2)), rate n/d), on the
+   expansion of the population circuit into one edge per matrix entry, is the specified per-edge kernel system *)
+Theorem C11_connectivity : forall c n, g_conn c = true -> gconn_run c n = gspec_run c n.
+Proof. exact conn_refines_spec. Qed.
+Print Assumptions C11_connectivity.
+
 (* refutations on the faithful model (replayed on the real code: corpus/C11) *)
 Definition dt8 := mkq 1 8.
 Definition S1 := mkNode true 0 (mkq 1 1) (mkq 1 2).
